@@ -270,4 +270,18 @@ theorem serve_cases (valid : List Char → Bool) (tc : Bool) (f : Flags) (r : Re
       · exact Or.inr rfl
       · exact Or.inl rfl
 
+/-! ### bcrypt key -/
+
+theorem key_at {p : List Char} {i : Nat} (hi : i < 72) :
+    (bcryptKey p)[i]? = some ((p ++ [NUL]).getD (i % (p.length + 1)) NUL) := by
+  unfold bcryptKey
+  simp [List.getElem?_map, List.getElem?_range hi]
+
+theorem getD_concat_lt {p : List Char} {j : Nat} (h : j < p.length) : (p ++ [NUL]).getD j NUL = p[j] := by
+  simp [List.getD_eq_getElem?_getD, List.getElem?_append_left h, h]
+
+theorem getD_concat_eq {p : List Char} : (p ++ [NUL]).getD p.length NUL = NUL := by
+  simp [List.getD_eq_getElem?_getD]
+
+
 end MM.C24
